@@ -263,7 +263,11 @@ func c01(run *ev.Run, tier string) {
 				if e.Kind == "symlink" {
 					m = 0
 				}
-				sg[e.Path] = fmt.Sprintf("%s %o %x %s", e.Kind, m, sha256.Sum256(e.Data), e.Link)
+				var h [32]byte
+				if e.Kind == "file" {
+					h = sha256.Sum256(e.Data)
+				}
+				sg[e.Path] = fmt.Sprintf("%s %o %x %s", e.Kind, m, h, e.Link)
 			}
 			sigs[f] = sg
 		}
